@@ -236,7 +236,18 @@ class Ctx:
                 self.add_violation("harness does not build against /repo (the verif-tagged exports/hooks the "
                                    "correspondence relies on no longer match the source): " + log[-1500:],
                                    {"kind": "build", "log": log[-4000:]}, no_input=True)
-        if harness_ok and not broken_theorems:
+        if coq_ok and not broken_theorems and self.tier == "thorough" and spec.get("coq"):
+            # independent re-check of the compiled theorem files and everything they depend on
+            for rel in spec["coq"]:
+                mod = "RG." + rel[:-2].replace("/", ".")
+                if True:
+                    rc_, out_ = sh(["timeout", "3000", "coqchk", "-silent", "-o", "-Q", "theories", "RG", mod], cwd=COQ, timeout=3100)
+                summary = out_[out_.find("CONTEXT SUMMARY"):][:1500] if "CONTEXT SUMMARY" in out_ else out_[-800:]
+                report["coqchk " + mod] = " ".join(summary.split())
+                if rc_ != 0:
+                    broken_theorems.append("coqchk rejects %s: %s" % (mod, out_[-1200:]))
+        # a broken proof obligation does not stop the run: the correspondence stages still search for a failing input
+        if harness_ok and os.path.exists(driver_exe()):
             for name, fn, kw in spec.get("stages", []):
                 t = time.time()
                 try:
@@ -383,15 +394,18 @@ def stage_pure(ctx, suites, n_quick=3000, n_thorough=60000, widen=4):
 
 # ------------------------------------------------------------------ gateway exploration stage
 
-def viol_context(path, c, ln):
+def viol_context(path, c, ln, vrid=None, prop=None):
     """Context of a monitor violation inside its trace: which recorded-finding trigger, if any, precedes it
     within the same task. Used only to attribute violations to known findings (never to hide new ones)."""
     lines = open(path).read().split("\n")
     reqkind = {}
+    reqrid = {}
     for x in lines[:ln]:
         g = x.split("\t")
         if g[0] == "REQ" and len(g) > 3:
             reqkind[(g[1], g[2])] = g[3]
+            if len(g) > 4:
+                reqrid[(g[1], g[2])] = g[4]
     ctx = []
     # recorded finding KF-PENDING-DROPPED, base case: an unsubscribe request of this connection succeeded while a
     # subscribe/get request for the same resource id was still outstanding
@@ -476,11 +490,46 @@ def viol_context(path, c, ln):
         if g[0] == "SITE":
             ctx.append("site:" + g[1])
         i -= 1
+    # site marks count only when they were recorded for this connection on the violation's own resource or on a
+    # resource connected to it by references (the recorded collector/pending findings propagate along references)
+    vr = vrid
+    if vr is not None and prop == "C07":
+        vr = reqrid.get((c, vr), vr)      # C07 violations name the request id
+    edges = {}
+    mqrid = {}
+    for l in lines:
+        g = l.split("\t")
+        src = None
+        if g[0] == "TRUTH" and len(g) > 3:
+            src, vals = g[1], g[3:]
+        elif g[0] == "MQREQ" and len(g) > 3:
+            mqrid[g[1]] = g[3]
+        elif g[0] == "MQRESP" and len(g) > 4 and g[2] in ("get", "query", "qmodel", "qcoll"):
+            src, vals = mqrid.get(g[1]), g[3:]
+        elif g[0] == "MQEV" and len(g) > 3:
+            src, vals = g[1], g[3:]
+        if src is not None:
+            for m in re.finditer(r"(?:^|[:;,\t])r([0-9]+(?:q[0-9]+)?)", "\t".join(vals)):
+                edges.setdefault(src, set()).add(m.group(1))
+                edges.setdefault(m.group(1), set()).add(src)
+    rel = {vr}
+    if prop == "C07":
+        # the unanswered request may be a call/auth whose resource response names another resource
+        rel |= set(r0 for r0, n0 in pendres.items() if n0 > 0)
+    todo = list(rel)
+    while todo:
+        x = todo.pop()
+        for y in edges.get(x, ()):
+            if y not in rel:
+                rel.add(y)
+                todo.append(y)
     sites = set()
     for l in lines[:ln]:
         if l.startswith("SITE\t"):
             g = l.split("\t")
-            if len(g) > 2 and (g[2] == c or not g[2].startswith(("c", "h"))):
+            if len(g) > 3 and (g[2] == c or not g[2].startswith(("c", "h"))) and (vr is None or g[3] in rel):
+                sites.add(g[1])
+            elif len(g) == 3 and (g[2] == c or not g[2].startswith(("c", "h"))):
                 sites.add(g[1])
     return sorted(set(ctx)), sorted(sites)
 
@@ -543,7 +592,7 @@ def triage_gw(ctx, viols, stalls, stall_props=(), monitor_props=None):
     for v in viols:
         if v["prop"] not in mprops:
             continue
-        contexts, sites = viol_context(v["path"], v["c"], v["line"])
+        contexts, sites = viol_context(v["path"], v["c"], v["line"], v["r"], v["prop"])
         kf = match_known(ctx, v["prop"], v["kind"], contexts, sites, v["r"])
         if kf:
             ctx.add_known(kf["id"], kf["what"])
